@@ -195,6 +195,11 @@ func checkC13(c *Ctx) error {
 			pc = c13ExternalOnlyCase(r)
 		case 6:
 			pc = c13SameNameCase(r)
+		case 7, 8, 9, 10, 11:
+			// the user's package in two Go files, types spelled two ways
+			for try := 0; try < 60 && (pc == nil || !strings.Contains(pc.Origin, "two-go-files")); try++ {
+				pc = c13Draw(d, r)
+			}
 		}
 		if pc == nil {
 			break
